@@ -492,8 +492,9 @@ class FieldHandler:
             except KeyError:
                 # parameter is not documented with @param.
 
-                if index == 0:
-                    # Strip 'self' or 'cls' from parameter table when it semantically makes sens.
+                if index == 0 and (param_type is None or param_type.origin is not FieldOrigin.FROM_DOCSTRING):
+                    # Strip 'self' or 'cls' from parameter table when it semantically makes sens
+                    # (not when the docstring gives it a type: that text would be lost).
                     if name=='self' and self.obj.kind is model.DocumentableKind.METHOD:
                         continue
                     if name=='cls' and self.obj.kind is model.DocumentableKind.CLASS_METHOD:
